@@ -22,6 +22,15 @@ RULE += "; option stream (n/15 more cases, own generator, OPTIONS_AUDIT.md): mak
 CIDS = ["A", "B", "C", "D"]
 
 
+# contest identifiers that are falsy, numeric-looking, differ only in case / blanks, or contain one another (round 9)
+CID_FAMILIES = [["0", "", "a", "A", "aa"], ["1", "01", "10", " 1", "1.0"]]
+
+
+def _cids(rng, ncon):
+    fam = CIDS if not rng.chance(0.15) else rng.choice(CID_FAMILIES)
+    return list(fam[:ncon])
+
+
 def _votes(rng, styles):
     return {c: {rng.choice(["x", "y", "z"]): rng.choice([0, 1, True]) for _ in range(rng.randint(0, 2))} for c in styles}
 
@@ -159,7 +168,7 @@ def gen_exhaustive(rng, maxn):
 def gen_random(rng):
     n = rng.choice([0, 0, 1, 2, 3, 5, 8, 12, 20])
     ncon = rng.choice([0, 1, 2, 3, 4, 4])
-    cids = CIDS[:ncon]
+    cids = _cids(rng, ncon)
     if rng.chance(0.3):
         cids = list(cids); rng.shuffle(cids)
     dens = rng.choice([0.2, 0.5, 0.9])
